@@ -133,27 +133,152 @@ theorem rf_rows (isZero : α → Bool) (i m b k f w : α) (hk : k ≠ 0) (inc : 
     · intro _; simp [rowUnc, rfFreq]
     · intro h; cases h
 
-/-- uncoupled `SolveUnc.fsolve` and `FreqDirect.fsolve` return the same row -/
+/-! ### damped rigid-body modes of an uncoupled system (findings F51 / F52, repaired code)
+
+For uncoupled equations the rigid-body modes are detected from `k` alone, so a rigid-body equation
+may carry damping: `m q̈ + b q̇ = f`.  `_solve_freq_rb` (repaired) divides `a = f/m` by
+`1 − i (b/m)/Ω` at `Ω ≠ 0`.  On the *coupled* path nothing of this applies: the detection rule makes a
+mode rigid-body only if its row and column of `k` and of `b` are below 0.005, and the block is solved
+as `a = M⁻¹ f`; a user-given `rb` on a coupled system with damping on those modes is solved without
+that damping (tied by the correspondence check, nothing is claimed about it here). -/
+
+/-- the denominator of the damped rigid-body acceleration is the dynamic stiffness of the row
+divided by `−Ω² m` -/
+theorem rbDamp_den (i m b w : α) (hm : m ≠ 0) (hw : w ≠ 0) :
+    (1 - i * (b * (1 / m)) / w) * (-(w * w) * m) = -(w * w) * m + i * w * b := by
+  field_simp
+  ring
+
+/-- **`frfRb_damped_solves`** — `_solve_freq_rb`, uncoupled path, all of `dva`, `Ω ≠ 0`, every
+`m ≠ 0` and *any* `b`: `(−Ω² m + iΩ b) d = f`, `v = iΩd`, `a = −Ω²d` (and `a = iΩv`).  `hden` (the
+dynamic stiffness of the row is not zero) holds automatically for real `m, b, Ω`
+(`rbDamp_den_ne_zero_real`); for complex `b` it excludes exactly `b = −iΩm`. -/
+theorem frfRb_damped_solves (isZero : α → Bool) (hz : ∀ x, isZero x = true ↔ x = 0)
+    (i m b f w : α) (hm : m ≠ 0) (hw : w ≠ 0) (hi : i * i = -1)
+    (hden : -(w * w) * m + i * w * b ≠ 0) :
+    let s := frfRbD isZero i m b f w Incrb.all;
+    (-(w * w) * m + i * w * b) * s.d = f ∧ s.v = i * w * s.d ∧ s.a = -(w * w) * s.d ∧
+      s.a = i * w * s.v := by
+  have hnz : isZero w = false := by
+    cases h : isZero w
+    · rfl
+    · exact absurd ((hz w).1 h) hw
+  have hq : 1 - i * (b * (1 / m)) / w ≠ 0 := by
+    intro h0
+    apply hden
+    rw [← rbDamp_den i m b w hm hw, h0, zero_mul]
+  have hmw : m * w - i * b ≠ 0 := by
+    intro h0
+    apply hden
+    rw [show -(w * w) * m + i * w * b = -w * (m * w - i * b) by ring, h0, mul_zero]
+  have hii : ∀ x : α, i * w * (-i / w * x) = x := by
+    intro x
+    rw [show i * w * (-i / w * x) = -(i * i) * (w / w) * x by ring, hi, div_self hw]; ring
+  by_cases hb : isZero b = true
+  · have hb0 : b = 0 := (hz b).1 hb
+    subst hb0
+    simp only [frfRbD, frfRb, Incrb.all, hnz, hb, Bool.not_false, Bool.and_self, if_true]
+    refine ⟨?_, ?_, ?_, ?_⟩
+    · field_simp
+      ring
+    · field_simp
+    · field_simp
+    · rw [hii]
+  · have hb' : isZero b = false := by simpa using hb
+    simp only [frfRbD, frfRb, rbDampAcc, Incrb.all, hnz, hb', Bool.not_false, Bool.and_self, if_true,
+      Bool.false_eq_true, if_false]
+    refine ⟨?_, ?_, ?_, ?_⟩
+    · rw [← rbDamp_den i m b w hm hw]
+      field_simp
+    · field_simp
+    · field_simp
+    · rw [hii]
+
+/-- **`frfRb_damped_reduces`** — with `b = 0` the damped row is the undamped row
+(`frfRb_solves`), also when the division is carried out because *another* rigid-body mode of the
+block is damped (`np.any(b_rb)` is a test on the whole block): the divisor is then one. -/
+theorem frfRb_damped_reduces (isZero : α → Bool) (hz : ∀ x, isZero x = true ↔ x = 0)
+    (i m f w arb : α) (inc : Incrb) :
+    frfRbD isZero i m 0 f w inc = frfRb isZero i ((1 / m) * f) w inc ∧
+    rbDampAcc isZero i arb (0 * (1 / m)) w = arb := by
+  have h0 : isZero (0 : α) = true := (hz 0).2 rfl
+  refine ⟨by simp [frfRbD, h0], ?_⟩
+  unfold rbDampAcc
+  split
+  · rfl
+  · simp
+
+/-- at `Ω = 0` the damped rigid-body row is what the undamped one is (`frfRb_zero_freq`): `d = v = 0`
+for every `incrb`, and `a = f/m` when requested — the documented convention … -/
+theorem frfRbD_zero_freq (isZero : α → Bool) (hz : ∀ x, isZero x = true ↔ x = 0)
+    (i m b f : α) (hm : m ≠ 0) (inc : Incrb) :
+    let s := frfRbD isZero i m b f 0 inc;
+    s.d = 0 ∧ s.v = 0 ∧ (inc.a = true → m * s.a = f) := by
+  have h0 : isZero (0 : α) = true := (hz 0).2 rfl
+  have harb : (if isZero b = true then 1 / m * f else rbDampAcc isZero i (1 / m * f) (b * (1 / m)) 0) =
+      1 / m * f := by
+    split
+    · rfl
+    · simp [rbDampAcc, h0]
+  simp only [frfRbD, harb]
+  exact frfRb_zero_freq isZero hz i m f hm inc
+
+/-- … which is *not* a solution of the dynamic-stiffness equation: at `Ω = 0` the equation of a
+rigid-body row reads `0 · d = f` and has no solution for `f ≠ 0` (with or without damping).  The
+residual rule of the check therefore excludes rigid-body rows at exactly 0 Hz. -/
+theorem frfRb_zero_freq_unsolvable (i m b f : α) (hf : f ≠ 0) :
+    ¬ ∃ d : α, (-((0 : α) * 0) * m + i * 0 * b) * d = f := by
+  rintro ⟨d, hd⟩
+  apply hf
+  rw [← hd]; ring
+
+/-- uncoupled `SolveUnc.fsolve` and `FreqDirect.fsolve` return the same row — rigid-body rows
+*with any damping* included (`k = 0`, `m ≠ 0`, `Ω ≠ 0`, dynamic stiffness of the row not zero) -/
 theorem rowUnc_eq_rowDirect (isZero : α → Bool) (hz : ∀ x, isZero x = true ↔ x = 0)
     (i m b k f w : α) (c : Cls) (inc : Incrb) (dO : Bool)
-    (hrb : c = .rb → b = 0 ∧ k = 0 ∧ m ≠ 0 ∧ w ≠ 0) :
+    (hrb : c = .rb → k = 0 ∧ m ≠ 0 ∧ w ≠ 0 ∧ -(w * w) * m + i * w * b ≠ 0) :
     (rowUnc isZero i c inc dO m b k f w).d = (rowDirect i c inc dO m b k f w).d ∧
     (rowUnc isZero i c inc dO m b k f w).v = (rowDirect i c inc dO m b k f w).v ∧
     (rowUnc isZero i c inc dO m b k f w).a = (rowDirect i c inc dO m b k f w).a := by
   cases c
-  · obtain ⟨hb, hk, hm, hw⟩ := hrb rfl
-    subst hb hk
+  · obtain ⟨hk, hm, hw, hden⟩ := hrb rfl
+    subst hk
     have hnz : isZero w = false := by
       cases h : isZero w
       · rfl
       · exact absurd ((hz w).1 h) hw
+    have hq : 1 - i * (b * (1 / m)) / w ≠ 0 := by
+      intro h0
+      apply hden
+      rw [← rbDamp_den i m b w hm hw, h0, zero_mul]
+    have hmw : m * w - i * b ≠ 0 := by
+      intro h0
+      apply hden
+      rw [show -(w * w) * m + i * w * b = -w * (m * w - i * b) by ring, h0, mul_zero]
+    have hden' : i * b * w + 0 - m * (w * w) ≠ 0 := by
+      intro h0; apply hden; rw [← h0]; ring
+    -- the acceleration `_solve_freq_rb` works with is `−Ω²` times FreqDirect's displacement
+    have key : (if isZero b = true then 1 / m * f else rbDampAcc isZero i (1 / m * f) (b * (1 / m)) w) =
+        -(w * w) * (f / (i * b * w + 0 - m * (w * w))) := by
+      by_cases hb : isZero b = true
+      · have hb0 : b = 0 := (hz b).1 hb
+        subst hb0
+        rw [if_pos hb]
+        field_simp
+        ring
+      · rw [if_neg hb]
+        simp only [rbDampAcc, hnz, Bool.false_eq_true, if_false]
+        rw [div_eq_iff hq]
+        have : i * b * w + 0 - m * (w * w) = (1 - i * (b * (1 / m)) / w) * (-(w * w) * m) := by
+          rw [rbDamp_den i m b w hm hw]; ring
+        rw [this]
+        field_simp
     rcases inc with ⟨d, v, a⟩
-    have e : i * 0 * w + 0 - m * (w * w) = -(m * (w * w)) := by ring
     cases d <;> cases v <;> cases a <;>
-      simp only [rowUnc, rowDirect, frfRb, frfDir, applyIncrb, hnz, e, Bool.not_false, Bool.and_true,
+      simp only [rowUnc, rowDirect, frfRbD, key, frfRb, frfDir, applyIncrb, hnz, Bool.not_false, Bool.and_true,
         Bool.and_false, Bool.true_and, Bool.false_and, Bool.false_eq_true, if_true, if_false, true_and, and_true,
         and_self] <;>
-      (try refine ⟨?_, ?_⟩) <;> (try refine ⟨?_, ?_⟩) <;> field_simp
+      (try refine ⟨?_, ?_⟩) <;> field_simp
   · simp only [rowUnc, rowDirect, frfUnc, frfDir]
     have e : i * (b * w) + k - m * (w * w) = i * b * w + k - m * (w * w) := by ring
     rw [e]
@@ -335,9 +460,27 @@ theorem imrbPickPrefix_counterexample :
     imrbPickPrefix (nonrfOf 4 [0]) [1] = some [2] ∧ imrbPickPrefix (nonrfOf 3 [0]) [2] = none ∧
     imrbPick (nonrfOf 4 [0]) [1] = [1] ∧ imrbPick (nonrfOf 3 [0]) [2] = [2] := by decide
 
+/-- for real `m ≠ 0`, `b`, `Ω ≠ 0` the hypothesis `hden` of `frfRb_damped_solves` /
+`rowUnc_eq_rowDirect` always holds: the real part of the row's dynamic stiffness is `−Ω² m` -/
+theorem rbDamp_den_ne_zero_real (m b w : ℝ) (hm : m ≠ 0) (hw : w ≠ 0) :
+    -((w : ℂ) * w) * m + Complex.I * w * b ≠ 0 := by
+  intro h
+  have h1 := congrArg Complex.re h
+  simp at h1
+  rcases h1 with h1 | h1
+  · exact hw h1
+  · exact hm h1
+
 /-! ### the hypotheses are inhabited -/
 
 example : (Complex.I * ((0:ℂ) * 1) + 2 - 1 * (1 * 1) ≠ 0) := by norm_num
+
+/-- a damped rigid-body row `2 q̈ + 0.8 q̇ = f` at `Ω = 3`: the hypotheses of `frfRb_damped_solves` -/
+example : (2 : ℂ) ≠ 0 ∧ (3 : ℂ) ≠ 0 ∧ Complex.I * Complex.I = -1 ∧
+    -((3 : ℂ) * 3) * 2 + Complex.I * 3 * (4 / 5) ≠ 0 := by
+  refine ⟨by norm_num, by norm_num, Complex.I_mul_I, ?_⟩
+  have := rbDamp_den_ne_zero_real 2 (4 / 5) 3 (by norm_num) (by norm_num)
+  simpa using this
 
 example : ∀ x : ℂ, (decide (x = 0)) = true ↔ x = 0 := fun x => by simp
 
